@@ -56,7 +56,8 @@ AskMut(r) ==
   \cup {[r EXCEPT !.id = i] : i \in {"a1U", "a1L", "a1B", "a1R", "a1T", "a1Z", ""}}
 AskIds == IF Tier = "quick" THEN {"a1"} ELSE {"a1", "a2"}
 BidIds == IF Tier = "quick" THEN {"b1"} ELSE {"b1", "b2"}
-AskReqs == UNION {AskMut(AskBase(id, b)) : id \in AskIds, b \in {"base", "cv1"}}
+\* the second id (thorough tier) only supplies a neighbour on the same side of the book
+AskReqs == UNION {AskMut(AskBase("a1", b)) : b \in {"base", "cv1"}} \cup {AskBase(id, "base") : id \in AskIds \ {"a1"}}
 
 \* ---- bids
 Due(total) == BidFeeFor(st.cfg, "q1", total)
@@ -82,7 +83,7 @@ BidMut(r) ==
                   !.fee = IF r.fee.some THEN SomeFee(r.fee.amt, q) ELSE NoFee] : q \in {"q2", "q9", ""}}
   \cup {[r EXCEPT !.sender = s] : s \in {"stranger", "seller1"}}
   \cup {[r EXCEPT !.id = i] : i \in {"b1U", "b1L", "b1T", "b1Z", ""}}
-BidReqs == UNION {BidMut(BidBase(id)) : id \in BidIds}
+BidReqs == BidMut(BidBase("b1")) \cup {BidBase(id) : id \in BidIds \ {"b1"}}
 
 \* ---- approval of the convertible ask (C08): every sender, wrong size / base / funds, repeated
 ApproveReqs(S) ==
@@ -95,7 +96,7 @@ ApproveReqs(S) ==
        \cup {[r EXCEPT !.funds = f] : f \in {NoFunds, Coins1("base", sz), Coins1("base", sz + 1), Coins1("cv1", sz)}}
        \cup {[r EXCEPT !.base = b, !.funds = Funds(b, sz)] : b \in {"cv1", "q1", ""}}
        \cup {[r EXCEPT !.id = i] : i \in {"a1L", "a1T"}}
-    : id \in AskIds}
+    : id \in {"a1"}}
 
 \* owners leave again, so that the empty book is revisited
 ExitReqs == {RReverse("cancel_ask", "seller1", NoFunds, i, NoSize) : i \in AskIds}
